@@ -125,6 +125,14 @@ impl Sel {
             seed: p.seed,
         }
     }
+    /// The same without sampling (sharding only): the tiny inputs (no function, one function) are never sampled away --
+    /// they are cheap, and the empty graph has its own exit path in every body.
+    fn take_all(&mut self) -> bool {
+        let i = self.idx;
+        self.idx += 1;
+        mix(i, 0x5bd1e995) % self.shards == self.shard
+    }
+
     /// Deterministic selection of the next combination: sampling first, then sharding.
     fn take(&mut self) -> bool {
         let i = self.idx;
@@ -1153,7 +1161,7 @@ pub fn generate(p: &GenParams, out: &mut Out) {
                             if !focus_ok(c, &p.focus) || (p.focus == "conflict" && code == 0 && n > 1) {
                                 continue;
                             }
-                            if !sel.take() {
+                            if !(if n <= 1 { sel.take_all() } else { sel.take() }) {
                                 continue;
                             }
                             let mut s = base_scn(format!("r{n}-{gi}-{code}-{ci}"), n, calls_of(e, (gi as u64) * 5), reads.clone(), writes.clone());
@@ -1358,7 +1366,7 @@ pub fn generate(p: &GenParams, out: &mut Out) {
                                 if mw && n > 3 {
                                     continue;
                                 }
-                                if !sel.take() {
+                                if !(if n <= 1 { sel.take_all() } else { sel.take() }) {
                                     continue;
                                 }
                                 let mut s = base_scn(format!("s{n}-{gi}-{code}-{ci}-{variant}"), n, calls_of(e, gi as u64), reads.clone(), writes.clone());
